@@ -646,8 +646,9 @@ def _check_same_crystal(ctx, key, what, sysm, spos, new, T, count, replay):
     if new.natoms != count * sysm.natoms:
         ctx.violate(key + ':count', f'{what}: {new.natoms} atoms, expected {count} x {sysm.natoms}', replay)
         return False
-    vol0, vol1 = sysm.box.volume, new.box.volume
-    if abs(vol1 - count * vol0) > 1e-8 * vol1:
+    # (the volume of the original cell from its vectors, not from the code under test)
+    vol0, vol1 = abs(float(np.linalg.det(sysm.box.vects))), new.box.volume
+    if not (vol1 > 0) or abs(vol1 - count * vol0) > 1e-8 * abs(vol1):
         ctx.violate(key + ':volume', f'{what}: volume {vol1}, expected {count} x {vol0}', replay)
         return False
     if sorted(new.atoms_prop()) != sorted(sysm.atoms_prop()):
@@ -712,6 +713,7 @@ def _oracle_rotate(ctx, am, sysm, fam, spos, U, d, arg, form, accepted, key, tol
               'spos': [[float(x) for x in sp] for sp in spos], 'atype': sysm.atoms.atype.tolist(), 'U': U, 'uvws': uv,
               'form': form, 'accepted': accepted, 'tol': tol}
     what = f'rotate uvws={uv} ({form}; integers {U}, det {d}; {fam})' + (f' tol={tol}' if tol is not None else '')
+    before = (sysm.atoms.pos.copy(), sysm.box.vects.copy(), sysm.box.origin.copy(), sysm.atoms.atype.copy())
     try:
         if tol is None:
             new, T = sysm.rotate(arg, return_transform=True)
@@ -727,6 +729,11 @@ def _oracle_rotate(ctx, am, sysm, fam, spos, U, d, arg, form, accepted, key, tol
         ctx.violate(key + ':refusal', f'{what}: indices that are not integers (3 tolerances or more off) were accepted',
                     replay)
         return
+    if not (np.array_equal(before[0], sysm.atoms.pos) and np.array_equal(before[1], sysm.box.vects)
+            and np.array_equal(before[2], sysm.box.origin) and np.array_equal(before[3], sysm.atoms.atype)):
+        ctx.violate(key + ':input-mutated', f'{what}: rotate changed the system it was called on (box '
+                    f'{before[1].tolist()} at {before[2].tolist()} -> {sysm.box.vects.tolist()} at '
+                    f'{sysm.box.origin.tolist()})', replay)
     if not _check_same_crystal(ctx, key, what, sysm, spos, new, T, abs(d), replay):
         return
     _check_new_vectors(ctx, key + ':vectors', what, sysm, U, new, T, replay)
